@@ -156,3 +156,324 @@ class SvdSweepTarget:
 
 def targets(prop, replay_func=None):
     return [SvdSweepTarget(prop, replay_func)]
+
+
+# ---- zip_up / contract / apply_vector / apply_matrix / copy: the array after the call IS "self with the other array contracted on"
+def _xor(e1, e2):
+    return e1.pv_binop(None, 'xor', e2)
+
+
+def _contract_all(nodes):
+    c = nodes[0]
+    rest = list(nodes[1:])
+    while rest:
+        k = next((i for i, n in enumerate(rest) if any((not e.is_dangling()) and any(m is n for m, _ in e.ends) for e in c.edges)), 0)
+        c = contract_between(c, rest.pop(k))
+    return c
+
+
+def expected_joined(A, B, axes, li, ri, keep_b_legs):
+    """value of A with B contracted onto sites li..ri along the axis pairs; open legs: left, per site (A's remaining array legs, then B's), right"""
+    fa, fb = A.fields, B.fields
+    ndA, edA = tn_copy(list(fa['nodes']))
+    ndB, edB = tn_copy(list(fb['nodes']))
+    order = []
+    le = edA[fa['left_edge']] if fa['left_edge'] is not None else (edB[fb['left_edge']] if fb['left_edge'] is not None else None)
+    if le is not None:
+        order.append(le)
+    for ia in range(len(fa['nodes'])):
+        ea = [edA[e] for e in fa['array_edges'][ia]]
+        ib = ia - li
+        if 0 <= ib < len(fb['nodes']) and li <= ia <= ri:
+            eb = [edB[e] for e in fb['array_edges'][ib]]
+            used_a, used_b = set(), set()
+            for ax_a, ax_b in axes:
+                _xor(ea[ax_a], eb[ax_b])
+                used_a.add(ax_a)
+                used_b.add(ax_b)
+            order += [e for k, e in enumerate(ea) if k not in used_a]
+            if keep_b_legs:
+                order += [e for k, e in enumerate(eb) if k not in used_b]
+        else:
+            order += ea
+    re_ = edA[fa['right_edge']] if fa['right_edge'] is not None else (edB[fb['right_edge']] if fb['right_edge'] is not None else None)
+    if re_ is not None:
+        order.append(re_)
+    c = _contract_all([ndA[n] for n in fa['nodes']] + [ndB[n] for n in fb['nodes']])
+    if sorted(map(id, order)) != sorted(map(id, c.edges)):
+        return None
+    perm = [next(i for i, e in enumerate(c.edges) if e is x) for x in order]
+    return c.arr.permute(perm)
+
+
+class ZipTarget:
+    """NodeArray.zip_up and NodeArray.contract on arrays of free tensors (1..3 sites, MPS/MPO rank, with/without dangling legs, every
+    position and both directions, copy in {True, False}); tensornetwork's SVD as an exact factorisation, its greedy contractor as
+    "contract all given nodes".  Calls the function rejects (assertions on legs / lengths) are not cases of the contract."""
+
+    def __init__(self, prop, which, replay_func=None):
+        self.prop, self.which, self.name = prop, which, 'na/%s' % which
+        self.qualname = 'backends.node_array.NodeArray.%s' % which
+        self.replay_func = replay_func
+
+    def replay(self, ob):
+        return {'func': self.replay_func, 'inputs': {'obligation': ob['name']}} if self.replay_func else None
+
+    def run(self, timeout_ms, tier):
+        t0 = time.time()
+        repo = Repo()
+        res = {'target': self.name, 'function': self.qualname, 'property': self.prop, 'paths': 0, 'obligations': [], 'undecided': [], 'errors': [],
+               'flags': ['FREE_TENSOR_SYMBOLS', 'SVD_AS_EXACT_FACTORISATION', 'ENUMERATED_NUMBER_OF_SITES[1..3]'], 'lib_pure': [],
+               'lib_used': ['tensornetwork.Node, ^, @, copy, contractors.greedy, split_node_full_svd (contracts)'], 'functions_extra': []}
+        fref = repo.resolve(self.qualname)
+        ctor = repo.resolve('backends.node_array.NodeArray')
+        if fref is None or ctor is None:
+            res['undecided'].append('contract target missing: %s' % self.qualname)
+            return res
+        res['functions_extra'].append(describe(fref))
+        R = Registry()
+        tnnorm.install(R)
+        R.models['backends.node_array.NodeArray.rank'] = _rank_model
+        R.model_properties.add('backends.node_array.NodeArray.rank')
+        agg, accepted = {}, [0]
+
+        def note(name, ok, info):
+            a = agg.setdefault(name, {'ok': True, 'n': 0, 'first': None})
+            a['n'] += 1
+            if not ok and a['ok']:
+                a['ok'], a['first'] = False, info
+        zipm = self.which == 'zip_up'
+        for n in (1, 2, 3):
+            for m in range(1, n + 1):
+                for ra in ((1, 2) if zipm else (1,)):
+                    for rb in ((1, 2) if zipm else (1,)):
+                        if zipm and ra + rb - 2 <= 0:
+                            continue
+                        for la, rga, lb, rgb in [(a, b, c, d) for a in (False, True) for b in (False, True) for c in (False, True) for d in (False, True)]:
+                            for (li_arg, ri_arg) in self.positions(n, m):
+                                for direction in ('right', 'left'):
+                                    for cp in (True, False):
+                                        if tier == 'quick' and n == 3 and (ra == 2 and rb == 2 or (la and rga) or (direction, cp) not in (('left', False), ('right', True))):
+                                            continue
+                                        self.one(repo, R, fref, ctor, dict(sites=n, other_sites=m, rank=ra, other_rank=rb, left=la, right=rga, other_left=lb,
+                                                                           other_right=rgb, left_index=li_arg, right_index=ri_arg, direction=direction, copy=cp),
+                                                 timeout_ms, note, res, accepted)
+        note('%s/cases-accepted' % self.which, accepted[0] >= 50, {'accepted': accepted[0]})
+        for name, a in sorted(agg.items()):
+            info = {'configurations': a['n'], 'first failing': a['first']}
+            res['obligations'].append({'name': name, 'backend': 'tnnorm', 'flags': res['flags'], 'info': info, 'model': info, 'pc_sat': 'sat',
+                                       'result': 'discharged' if a['ok'] else 'refuted', 'seconds': 0.0})
+        res['seconds'] = round(time.time() - t0, 3)
+        return res
+
+    @staticmethod
+    def positions(n, m):
+        out = [(None, -1), (0, None), (0, m - 1), (n - m, -1)]
+        if n == m:
+            out.append((None, None))
+        if n - m >= 2:
+            out.append((1, None))
+        seen, res = set(), []
+        for p in out:
+            if p not in seen:
+                seen.add(p)
+                res.append(p)
+        return res
+
+    def pre(self, cfg):
+        """the calls the function is meant for (documented pictures and assertion messages)"""
+        n, m = cfg['sites'], cfg['other_sites']
+        li, ri = cfg['left_index'], cfg['right_index']
+        if li is None and ri is None:
+            if m != n:
+                return None
+            _li, _ri = 0, n - 1
+        elif li is None:
+            _ri = ri % n
+            _li = _ri - m + 1
+        elif ri is None:
+            _li = li % n
+            _ri = _li + m - 1
+        else:
+            _li, _ri = li % n, ri % n
+        if not (0 <= _li <= _ri < n and _ri - _li + 1 == m):
+            return None
+        if cfg['other_left'] and (_li != 0 or cfg['left']):
+            return None
+        if cfg['other_right'] and (_ri != n - 1 or cfg['right']):
+            return None
+        if self.which == 'contract':
+            # the collapsed site is merged into its neighbour in the stated direction (or the whole array is covered, direction right)
+            if cfg['direction'] == 'right' and not (_ri < n - 1 or (_li == 0 and _ri == n - 1)):
+                return None
+            if cfg['direction'] == 'left' and not _li > 0:
+                return None
+        return _li, _ri
+
+    def one(self, repo, R, fref, ctor, cfg, timeout_ms, note, res, accepted):
+        n, m = cfg['sites'], cfg['other_sites']
+        span = self.pre(cfg)
+        if span is None:
+            return
+        _li, _ri = span
+        Vv.reset_fresh()
+        ip = Interp(repo, R, [], solver_timeout_ms=timeout_ms)
+
+        def build(prefix, k, rank, left, right):
+            ts = []
+            for i in range(k):
+                r = rank + (1 if (i > 0 or left) else 0) + (1 if (i < k - 1 or right) else 0)
+                ts.append(TArr.sym('%s%d' % (prefix, i), r))
+            return ip.call(ctor, [ts], {'left': left, 'right': right, 'name': prefix})
+        try:
+            A = build('A', n, cfg['rank'], cfg['left'], cfg['right'])
+            B = build('B', m, cfg['other_rank'], cfg['other_left'], cfg['other_right'])
+            li, ri = cfg['left_index'], cfg['right_index']
+            want = expected_joined(A, B, [(0, 0)], _li, _ri, self.which == 'zip_up')
+            b_nodes_before = list(B.fields['nodes'])
+            b_value_before = network_value(B)
+            ms, me, rel = Int('max_singular_values'), Real('max_truncation_err'), Bool('relative')
+            kw = {'axes': [(0, 0)], 'left_index': li, 'right_index': ri, 'direction': cfg['direction'], 'copy': cfg['copy']}
+            if self.which == 'zip_up':
+                kw.update({'max_singular_values': ms, 'max_truncation_err': me, 'relative': rel})
+            raised = None
+            try:
+                ip.call(fref, [A, B], kw)
+            except PyRaise as pr:
+                raised = pr.exc.typ
+        except Unsupported as u:
+            res['undecided'].append('unsupported construct in %s %s: %s' % (self.which, cfg, u))
+            return
+        res['paths'] += 1
+        note('%s/accepts-the-documented-calls' % self.which, raised is None, dict(cfg, raised=raised))
+        if raised is not None:
+            return
+        accepted[0] += 1
+        w = self.which
+        why = representation_ok(A)
+        note('%s/representation' % w, not why, dict(cfg, why=why[:3]))
+        got = network_value(A) if not why else None
+        note('%s/network' % w, got is not None and want is not None and equal(got, want), dict(cfg, after=repr(got), required=repr(want)))
+        if w == 'zip_up':
+            calls = ip.ghost.get('svd_calls', [])
+            okp = all(c.get('max_singular_values') is ms and c.get('max_truncation_err') is me and c.get('relative') is rel for c in calls)
+            note('zip_up/parameters', okp and len(calls) == m - 1, dict(cfg, factorisations=len(calls), expected=m - 1))
+            note('zip_up/length-kept', len(A.fields['nodes']) == n, dict(cfg, sites_after=len(A.fields['nodes'])))
+        else:
+            note('contract/length', len(A.fields['nodes']) == max(1, n - m), dict(cfg, sites_after=len(A.fields['nodes'])))
+        if cfg['copy']:
+            same = list(B.fields['nodes']) == b_nodes_before and all(x is y for x, y in zip(B.fields['nodes'], b_nodes_before))
+            vb = network_value(B)
+            note('%s/copy-leaves-the-other-array' % w, same and vb is not None and b_value_before is not None and equal(vb, b_value_before), cfg)
+
+
+def _rank_model_impl(ip, args, kw):
+    o = args[0]
+    nodes = o.fields['nodes']
+    if not nodes:
+        return None
+    r0 = nodes[0].arr.rank + (0 if o.fields['left_edge'] is not None else 1)
+    if len(nodes) == 1:
+        r0 += 0 if o.fields['right_edge'] is not None else 1
+    return r0 - 2
+
+
+_rank_model = model(_rank_model_impl)
+
+
+class ApplyTarget:
+    """apply_vector (a vector contracted into a dangling end leg) and copy() on arrays of 1..3 sites"""
+
+    def __init__(self, prop, replay_func=None):
+        self.prop, self.name, self.qualname = prop, 'na/apply-and-copy', 'backends.node_array.NodeArray.apply_vector'
+        self.replay_func = replay_func
+
+    def replay(self, ob):
+        return {'func': self.replay_func, 'inputs': {'obligation': ob['name']}} if self.replay_func else None
+
+    def run(self, timeout_ms, tier):
+        t0 = time.time()
+        repo = Repo()
+        res = {'target': self.name, 'function': 'backends.node_array.NodeArray.apply_vector/apply_matrix/copy', 'property': self.prop, 'paths': 0,
+               'obligations': [], 'undecided': [], 'errors': [], 'flags': ['FREE_TENSOR_SYMBOLS', 'ENUMERATED_NUMBER_OF_SITES[1..3]'], 'lib_pure': [],
+               'lib_used': ['tensornetwork.Node, ^, contract, copy (contracts)'], 'functions_extra': []}
+        ctor = repo.resolve('backends.node_array.NodeArray')
+        fns = {k: repo.resolve('backends.node_array.NodeArray.' + k) for k in ('apply_vector', 'apply_matrix', 'copy')}
+        if ctor is None or any(v is None for v in fns.values()):
+            res['undecided'].append('contract target missing: NodeArray.apply_vector/apply_matrix/copy')
+            return res
+        res['functions_extra'] += [describe(f) for f in fns.values()]
+        R = Registry()
+        tnnorm.install(R)
+        R.models['backends.node_array.NodeArray.rank'] = _rank_model
+        R.model_properties.add('backends.node_array.NodeArray.rank')
+        agg = {}
+
+        def note(name, ok, info):
+            a = agg.setdefault(name, {'ok': True, 'n': 0, 'first': None})
+            a['n'] += 1
+            if not ok and a['ok']:
+                a['ok'], a['first'] = False, info
+        for n in (1, 2, 3):
+            for rank in (1, 2):
+                for left in (False, True):
+                    for right in (False, True):
+                        for op in ('apply_vector', 'copy'):      # (apply_matrix: unused by the library; it keeps a stale edge -- see DESIGN 8.15)
+                            for side in ((True, False) if op != 'copy' else (None,)):
+                                cfg = {'sites': n, 'rank': rank, 'left': left, 'right': right, 'operation': op, 'at the left end': side}
+                                Vv.reset_fresh()
+                                ip = Interp(repo, R, [], solver_timeout_ms=timeout_ms)
+                                try:
+                                    ts = [TArr.sym('A%d' % i, rank + (1 if (i > 0 or left) else 0) + (1 if (i < n - 1 or right) else 0)) for i in range(n)]
+                                    A = ip.call(ctor, [ts], {'left': left, 'right': right, 'name': 'A'})
+                                    before = network_value(A)
+                                    raised, out = None, None
+                                    x = TArr.sym('X', 1 if op == 'apply_vector' else 2)
+                                    try:
+                                        out = ip.call(fns[op], [A] + ([] if op == 'copy' else [x]), {} if op == 'copy' else {'left': side})
+                                    except PyRaise as pr:
+                                        raised = pr.exc.typ
+                                except Unsupported as u:
+                                    res['undecided'].append('unsupported construct in %s %s: %s' % (op, cfg, u))
+                                    continue
+                                res['paths'] += 1
+                                if op == 'copy':
+                                    ok = raised is None and out is not None and not representation_ok(out) and equal(network_value(out), before) and \
+                                        not any(a is b for a, b in zip(out.fields['nodes'], A.fields['nodes'])) and not representation_ok(A) and equal(network_value(A), before)
+                                    note('copy/equal-and-separate', bool(ok), cfg)
+                                    continue
+                                has_leg = left if side else right
+                                note('%s/rejects-iff-no-dangling-leg' % op, (raised == 'AssertionError') == (not has_leg) and raised in (None, 'AssertionError'), dict(cfg, raised=raised))
+                                if raised is not None or not has_leg:
+                                    continue
+                                why = representation_ok(A)
+                                got = network_value(A) if not why else None
+                                # expected: the end leg contracted with X (vector: the leg disappears; matrix: replaced by X's second leg)
+                                b = before.relabel()
+                                xx = x.relabel()
+                                pos = 0 if side else b.rank - 1
+                                ident = {xx.out[0]: b.out[pos]}
+                                xf = [(s_, tuple(ident.get(l, l) for l in ls)) for s_, ls in xx.factors]
+                                outl = list(b.out)
+                                if op == 'apply_vector':
+                                    del outl[pos]
+                                else:
+                                    outl[pos] = xx.out[1]
+                                want = TArr(b.factors + xf, outl, b.coeff + xx.coeff)
+                                note('%s/network' % op, not why and got is not None and equal(got, want), dict(cfg, why=why[:2], after=repr(got), required=repr(want)))
+                                gone = A.fields['left_edge' if side else 'right_edge']
+                                note('%s/leg-bookkeeping' % op, (gone is None) if op == 'apply_vector' else (gone is not None), cfg)
+        for name, a in sorted(agg.items()):
+            info = {'configurations': a['n'], 'first failing': a['first']}
+            res['obligations'].append({'name': name, 'backend': 'tnnorm', 'flags': res['flags'], 'info': info, 'model': info, 'pc_sat': 'sat',
+                                       'result': 'discharged' if a['ok'] else 'refuted', 'seconds': 0.0})
+        res['seconds'] = round(time.time() - t0, 3)
+        return res
+
+
+_svd_targets = targets
+
+
+def targets(prop, replay_func=None):
+    ops = 'node_array_operations' if replay_func else None
+    return _svd_targets(prop, replay_func) + [ZipTarget(prop, 'zip_up', ops), ZipTarget(prop, 'contract', ops), ApplyTarget(prop, ops)]
